@@ -26,6 +26,16 @@ impl Registers {
         self.b.clone()
     }
 
+    #[cfg(feature = "verif")]
+    pub fn verif_all(&self) -> [Variant; 4] {
+        [
+            self.a.clone(),
+            self.b.clone(),
+            self.c.clone(),
+            self.d.clone(),
+        ]
+    }
+
     pub fn set_a(&mut self, v: Variant) {
         self.a = v;
     }
